@@ -327,7 +327,8 @@ def run_case(arg):
 
     import onnx
 
-    idx, case, seed, variant = arg
+    idx, case, seed, variant, annotate = arg[:5]
+    orig_only = len(arg) > 5 and arg[5]
     logging.disable(logging.WARNING)
     out = {"idx": idx, "variant": variant}
     model = build_model(case, variant)
@@ -350,12 +351,15 @@ def run_case(arg):
     m2 = onnx.ModelProto()
     m2.CopyFrom(model)
     sess1 = None
-    try:
-        opt = onnxscript.optimizer.optimize(m2)
-        out["opt_ops"] = [n.op_type for n in opt.graph.node]
-    except Exception as e:
-        out["opt_raised"] = f"{type(e).__name__}: {str(e)[:300]}"
-        opt = None
+    opt = None
+    if orig_only:
+        out["orig_only"] = True
+    else:
+        try:
+            opt = onnxscript.optimizer.optimize(m2)
+            out["opt_ops"] = [n.op_type for n in opt.graph.node]
+        except Exception as e:
+            out["opt_raised"] = f"{type(e).__name__}: {str(e)[:300]}"
     if opt is not None:
         try:
             sess1 = core.ort_session(opt)
@@ -363,6 +367,7 @@ def run_case(arg):
             out["opt_load"] = str(e)[-300:]
     onames = [o.name for o in model.graph.output]
     runs = []
+    kept = {}
     for j, b in enumerate(bindings(case)):
         rng = np.random.default_rng([seed, zlib.crc32(case_key(case).encode()), j])
         feeds = feeds_for(case, b, rng)
@@ -372,22 +377,101 @@ def run_case(arg):
             runs.append({"o": None, "err": str(e)[-120:]})
             continue
         rec = {"o": [enc(a) for a in r0]}
-        if sess1 is None:
-            rec["opt"] = "NOMODEL"
-        else:
-            try:
-                used = {i.name for i in sess1.get_inputs()}
-                r1 = sess1.run(onames, {k: v for k, v in feeds.items() if k in used})
-                bad = [onames[q] for q in range(len(r0)) if not core.same_array(r0[q], r1[q])]
-                if bad:
-                    q = onames.index(bad[0])
-                    rec["opt"] = f"DIFF {bad[0]}: original {r0[q].dtype}{list(r0[q].shape)} {r0[q].reshape(-1)[:6].tolist()} optimized {r1[q].dtype}{list(r1[q].shape)} {r1[q].reshape(-1)[:6].tolist()}"
-                else:
-                    rec["opt"] = "SAME"
-            except Exception as e:
-                rec["opt"] = "ERR " + str(e)[-160:]
+        rec["opt"] = compare_run(sess1, onames, feeds, r0)
+        sp = case["rep"][j]
+        if sp["ok"] and not sp["un"]:
+            kept[j] = (feeds, r0)
         runs.append(rec)
     out["runs"] = runs
+    # ---- second form of the same model: graph outputs declared with the shapes they really have (exporters write
+    # such annotations; rules like MaterializeReshapeShape / collapse_slice2 act on them).  A declared dim is an
+    # int when the dim has that value at every judged binding, a named input symbol when it equals that symbol at
+    # every judged binding, else unknown: the declaration is true wherever the model is judged.
+    if annotate and not orig_only and len(kept) >= 2:
+        decl = annotated_outputs(case, model, kept)
+        if decl is not None:
+            m3 = onnx.ModelProto()
+            m3.CopyFrom(model)
+            del m3.graph.output[:]
+            m3.graph.output.extend(decl)
+            out["annotated"] = {o.name: [d.dim_value if d.HasField("dim_value") else (d.dim_param or None) for d in o.type.tensor_type.shape.dim] for o in decl}
+            sess2 = None
+            try:
+                onnx.checker.check_model(m3)
+                core.ort_session(m3)  # the annotated original must itself be loadable
+                opt2 = onnxscript.optimizer.optimize(m3)
+                out["opt2_ops"] = [n.op_type for n in opt2.graph.node]
+                out["opt2_materialized"] = materialized_shapes(opt2)
+                try:
+                    sess2 = core.ort_session(opt2)
+                except Exception as e:
+                    out["opt2_load"] = str(e)[-300:]
+            except Exception as e:
+                out["opt2_raised"] = f"{type(e).__name__}: {str(e)[:300]}"
+            for j, (feeds, r0) in kept.items():
+                runs[j]["opt2"] = compare_run(sess2, onames, feeds, r0)
+    return out
+
+
+def compare_run(sess, onames, feeds, r0):
+    if sess is None:
+        return "NOMODEL"
+    try:
+        used = {i.name for i in sess.get_inputs()}
+        r1 = sess.run(onames, {k: v for k, v in feeds.items() if k in used})
+    except Exception as e:
+        return "ERR " + str(e)[-160:]
+    for q in range(len(r0)):
+        if not core.same_array(r0[q], r1[q]):
+            return (f"DIFF {onames[q]}: original {r0[q].dtype}{list(r0[q].shape)} {r0[q].reshape(-1)[:6].tolist()} "
+                    f"optimized {r1[q].dtype}{list(r1[q].shape)} {r1[q].reshape(-1)[:6].tolist()}")
+    return "SAME"
+
+
+def annotated_outputs(case, model, kept):
+    from onnx import helper as h
+
+    named = [(c, SYMS[c]) for c in case["free"] if c in SYMS]
+    decl = []
+    informative = False
+    for q, o in enumerate(model.graph.output):
+        shapes = [(case["rep"][j]["b"], r0[q].shape) for j, (_, r0) in kept.items()]
+        rank = len(shapes[0][1])
+        dims = []
+        for ax in range(rank):
+            vals = {sh[ax] for _, sh in shapes}
+            if len(vals) == 1:
+                dims.append(int(next(iter(vals))))
+                informative = True
+                continue
+            sym = None
+            for c, name in named:
+                pos = case["free"].index(c)
+                if all(b[pos] == sh[ax] for b, sh in shapes):
+                    sym = name
+                    break
+            dims.append(sym)
+            informative = informative or sym is not None
+        decl.append(h.make_tensor_value_info(o.name, o.type.tensor_type.elem_type, dims))
+    return decl if informative else None
+
+
+def materialized_shapes(model):
+    """constant shape operands of Reshape nodes that carry allowzero=1 in the optimized model"""
+    from onnx import numpy_helper as nh
+
+    consts = {i.name: nh.to_array(i).tolist() for i in model.graph.initializer}
+    for n in model.graph.node:
+        if n.op_type == "Constant":
+            for a in n.attribute:
+                if a.name == "value":
+                    consts[n.output[0]] = nh.to_array(a.t).tolist()
+                elif a.name == "value_ints":
+                    consts[n.output[0]] = list(a.ints)
+    out = []
+    for n in model.graph.node:
+        if n.op_type == "Reshape" and any(a.name == "allowzero" and a.i == 1 for a in n.attribute) and n.input[1] in consts:
+            out.append(consts[n.input[1]])
     return out
 
 
@@ -460,18 +544,18 @@ WITNESSES = {
 
 
 def run(ctx: core.Ctx):
+    import time
+
     q = ctx.quick
-    jobs = [("vacuity: Sound under AllDevs must fail", "SymShape_vacuity.cfg", dict(timeout=1200, workers=4))]
-    exh = ["SymShape_quick.cfg", "SymShape_chain3.cfg"] if q else ["SymShape_quick.cfg", "SymShape_thorough.cfg", "SymShape_chain3t.cfg", "SymShape_design.cfg"]
-    for cfg in exh:
+    chain = "SymShape_chain3.cfg" if q else "SymShape_chain3t.cfg"
+    jobs = [("vacuity: Sound under AllDevs must fail", "SymShape_vacuity.cfg", dict(timeout=1200, workers=2))]
+    for cfg in [chain, "SymShape_quick.cfg"] if q else [chain, "SymShape_quick.cfg", "SymShape_thorough.cfg", "SymShape_design.cfg"]:
         jobs.append((cfg, cfg, dict(timeout=3000, workers=8 if q else 6)))
-    nsim, num = (4, 200) if q else (12, 1500)
+    nsim, num = (4, 200) if q else (12, 1000)
     for j in range(nsim):
         cfg = "SymShape_sim.cfg" if j % 2 == 0 else "SymShape_sim2.cfg"
         sd = ctx.seed * 100 + j + 1
         jobs.append((f"{cfg} -simulate num={num} seed={sd}", cfg, dict(timeout=3000, workers=1, simulate=f"num={num}", depth=60, seed=sd)))
-    import time
-
     t0 = time.time()
     results = run_tlc_jobs(ctx, jobs)
     ctx.set("tlc_phase_s", round(time.time() - t0, 1))
@@ -508,8 +592,16 @@ def run(ctx: core.Ctx):
     ]
 
 
+def wants_annotation(ctx, i, case):
+    """the annotated form is run for models whose outputs include a data Reshape / Expand / Slice / Concat
+    (quick: every second such model)"""
+    ni = len(case["ins"])
+    hit = any(case["nodes"][v - ni - 1]["op"] in ("Reshape", "Expand", "Slice", "Concat") and case["meta"][v - 1]["k"] == "f" for v in case["outs"])
+    return hit and (not ctx.quick or (i + ctx.seed) % 2 == 0)
+
+
 def judge(ctx, allcases):
-    items = [(i, c, ctx.seed, (i + ctx.seed) % 3) for i, c in enumerate(allcases)]
+    items = [(i, c, ctx.seed, (i + ctx.seed) % 3, wants_annotation(ctx, i, c)) for i, c in enumerate(allcases)]
     import time
 
     import onnx  # noqa: F401  (imported before the fork so that the 16 workers do not each pay for it)
@@ -521,18 +613,37 @@ def judge(ctx, allcases):
     t0 = time.time()
     results = core.pmap_safe(run_case, items, timeout=120)
     ctx.set("pmap_s", round(time.time() - t0, 1))
+    # a worker that died: ONNX Runtime aborted the process (it does so on some invalid models, e.g. a Slice
+    # of an Expand with a negative target dim).  Re-run the original alone: if that dies too the model is
+    # discarded, otherwise it is the OPTIMIZED model that kills the runtime although the original runs.
+    died = [k for k, r in enumerate(results) if isinstance(r, core.MachineryErrorResult) and "died" in r.msg]
+    crash_optimized = set()
+    if died:
+        again = core.pmap_safe(run_case, [items[k] + (True,) for k in died], timeout=120, workers=min(4, len(died)))
+        for k, r2 in zip(died, again):
+            if isinstance(r2, dict):
+                crash_optimized.add(k)
+                r2["opt_raised"] = "the process running the optimized model was aborted by ONNX Runtime"
+                r2["runs"] = [dict(x, opt="NOMODEL") if x["o"] is not None else x for x in r2["runs"]]
+                results[k] = r2
+            else:
+                results[k] = {"ort_abort": True}
+    ctx.set("models_aborting_onnxruntime", len(died) - len(crash_optimized))
     nontriv = set()
     mism = 0
     absm = 0
     traces_ok = 0
     discarded_models = 0
     dev_pred = 0
-    for (i, case, _, _), r in zip(items, results):
+    for (i, case, _, _, _), r in zip(items, results):
         txt = text_of(case)
         if r is core.HANG or isinstance(r, core.MachineryErrorResult):
             raise core.MachineryError(f"worker failed on {txt}: {r}")
         if "machinery" in r:
             raise core.MachineryError(f"{r['machinery']} for {txt}")
+        if "ort_abort" in r:
+            discarded_models += 1
+            continue
         if "orig_load" in r:
             discarded_models += 1
             if any(x["ok"] for x in case["rep"]):
@@ -575,26 +686,34 @@ def judge(ctx, allcases):
                 ctx.add("bindings_outside_onnx_semantics")
                 continue
             anyok = True
-            if "opt_raised" in r:
-                what = f"optimize() raised {r['opt_raised']}"
-            elif "opt_load" in r:
-                what = f"ORT cannot load the optimized model: {r['opt_load']}"
-            elif rr["opt"] == "SAME":
-                if not sp["same"] and not sp["un"]:
-                    mism += 1
-                    if mism <= 15:
-                        print(f"SPEC-MISMATCH C09 predicted departure did not happen: {txt} at {sp['b']}")
-                continue
-            else:
-                what = rr["opt"]
-            finding = None
-            if sp["ok"] and not sp["same"] and case["devs"]:
-                finding = sorted(case["devs"])[0]
-                dev_pred += 1
             bind = {("?" if c > 2000 else SYMS.get(c, c)) + (str(c - 2000) if c > 2000 else ""): v for c, v in zip(case["free"], sp["b"])}
-            ctx.report({"model": txt, "ins": case["ins"], "nodes": case["nodes"], "binding": bind, "free": case["free"], "b": sp["b"],
-                        "variant": r["variant"], "opt_ops": r.get("opt_ops"), "case": case_min(case)},
-                       f"{txt} at {bind}: the original model runs, the optimized one does not agree: {what}", finding=finding)
+            for form, k_raised, k_load, k_run in (("", "opt_raised", "opt_load", "opt"), ("with declared output shapes " + str(r.get("annotated")) + " ", "opt2_raised", "opt2_load", "opt2")):
+                if k_run == "opt2" and "opt2" not in rr:
+                    continue
+                ctx.add("judged_runs")
+                finding = None
+                if k_raised in r:
+                    what = f"optimize() raised {r[k_raised]}"
+                elif k_load in r:
+                    what = f"ORT cannot load the optimized model: {r[k_load]}"
+                elif rr[k_run] == "SAME":
+                    if k_run == "opt" and not sp["same"]:
+                        mism += 1
+                        if mism <= 15:
+                            print(f"SPEC-MISMATCH C09 predicted departure did not happen: {txt} at {sp['b']}")
+                    continue
+                else:
+                    what = rr[k_run]
+                if not sp["same"] and case["devs"]:
+                    finding = sorted(case["devs"])[0]
+                    dev_pred += 1
+                elif k_run == "opt2" and any(-1 in sh and 0 in sh for sh in r.get("opt2_materialized", [])) and not rr[k_run].startswith("DIFF"):
+                    # guard of the known deviation of MaterializeReshapeShape: a constant shape holding -1 and 0 next to allowzero=1
+                    finding = "materialize_allowzero"
+                ctx.report({"model": txt, "ins": case["ins"], "nodes": case["nodes"], "binding": bind, "free": case["free"], "b": sp["b"],
+                            "variant": r["variant"], "form": k_run, "declared_outputs": r.get("annotated") if k_run == "opt2" else None,
+                            "opt_ops": r.get("opt_ops" if k_run == "opt" else "opt2_ops"), "case": case_min(case)},
+                           f"{txt} {form}at {bind}: the original model runs, the optimized one does not agree: {what}", finding=finding)
         if not anyok:
             discarded_models += 1
         elif simplified:
@@ -621,12 +740,18 @@ def replay(ctx, path):
     with open(path) as f:
         blob = json.load(f)["case"]
     case = blob["case"]
-    # keep only the failing binding
     j = [r["b"] for r in case["rep"]].index(blob["b"])
-    r = run_case((0, case, ctx.seed, blob.get("variant", 0)))
+    r = run_case((0, case, ctx.seed, blob.get("variant", 0), True))
     rr = r.get("runs", [None] * len(case["rep"]))[j]
-    print(json.dumps({"model": blob["model"], "binding": blob["binding"], "spec": case["rep"][j],
+    print(json.dumps({"model": blob["model"], "binding": blob["binding"], "form": blob.get("form"), "spec": case["rep"][j],
                       "abstract_real": r.get("abstract"), "abstract_spec": spec_view(case),
-                      "optimized_ops": r.get("opt_ops"), "now": rr, "opt_raised": r.get("opt_raised"), "opt_load": r.get("opt_load")}, indent=1, default=str))
-    bad = rr is not None and rr["o"] is not None and ("opt_raised" in r or "opt_load" in r or rr.get("opt") != "SAME")
+                      "optimized_ops": r.get("opt_ops"), "declared_outputs": r.get("annotated"), "optimized_ops_annotated": r.get("opt2_ops"),
+                      "now": rr, "opt_raised": r.get("opt_raised"), "opt_load": r.get("opt_load"),
+                      "opt2_raised": r.get("opt2_raised"), "opt2_load": r.get("opt2_load")}, indent=1, default=str))
+    if rr is None or rr["o"] is None:
+        return 0
+    if blob.get("form") == "opt2":
+        bad = "opt2_raised" in r or "opt2_load" in r or rr.get("opt2", "SAME") != "SAME"
+    else:
+        bad = "opt_raised" in r or "opt_load" in r or rr.get("opt") != "SAME"
     return 1 if bad else 0
